@@ -35,7 +35,7 @@ def unpack(istr,bigend=False):
             qlen = q<<3
             s,istr = istr[:c],istr[c:]
             for v in struct.unpack('%c%d%c'%(endian,n,f),s):
-                b = b|(v<<i) if not bigend else (b<<i)|v
+                b = b|(v<<i) if not bigend else (b<<qlen)|v
                 i += qlen
         if r==0: return (b,size)
     raise ValueError
